@@ -143,33 +143,43 @@ def run_one(m, lane):
     return res
 
 
-def lane_main(lane, ids):
+ALL = ['C%02d' % k for k in range(1, 21)]
+
+
+def lane_main(lane, ids, stage2=False):
     ms = {m['id']: m for m in json.load(open(os.path.join(OUT, 'mutants.json')))}
-    outp = os.path.join(OUT, 'results.lane%d.jsonl' % lane)
+    outp = os.path.join(OUT, ('results2.lane%d.jsonl' if stage2 else 'results.lane%d.jsonl') % lane)
     with open(outp, 'a') as f:
         for i in ids:
             try:
-                r = run_one(ms[i], lane)
+                m = ms[i]
+                if stage2:          # survivors of their anchoring checks: every other property's check
+                    m = dict(m, props=[p for p in ALL if p not in m['props']])
+                r = run_one(m, lane)
             except Exception as ex:
                 r = {'id': i, 'outcome': 'harness-error', 'error': str(ex)[:300]}
             f.write(json.dumps(r) + '\n')
             f.flush()
 
 
-def results():
+def results(prefix='results.lane'):
     out = {}
     for fn in os.listdir(OUT):
-        if fn.startswith('results.lane'):
+        if fn.startswith(prefix):
             for l in open(os.path.join(OUT, fn)):
                 r = json.loads(l)
                 out[r['id']] = r
     return out
 
 
-def run(lanes):
+def run(lanes, stage2=False):
     ms = json.load(open(os.path.join(OUT, 'mutants.json')))
     done = results()
-    todo = [m['id'] for m in ms if m['id'] not in done]
+    if stage2:
+        done2 = results('results2.lane')
+        todo = [i for i, r in sorted(done.items()) if r['outcome'] == 'survived' and i not in done2]
+    else:
+        todo = [m['id'] for m in ms if m['id'] not in done]
     print(len(todo), 'to run on', lanes, 'lanes')
     procs = []
     for k in range(lanes):
@@ -179,7 +189,7 @@ def run(lanes):
             subprocess.run(['cp', '-r', '/repo', d + '/repo'], check=True)
         subprocess.run(['git', '-C', d + '/repo', 'checkout', '--', '.'], check=True)
         ids = todo[k::lanes]
-        procs.append(subprocess.Popen([sys.executable, __file__, 'lane', str(k)] + ids))
+        procs.append(subprocess.Popen([sys.executable, __file__, 'lane2' if stage2 else 'lane', str(k)] + ids))
     for p in procs:
         p.wait()
 
@@ -187,6 +197,10 @@ def run(lanes):
 def report():
     ms = {m['id']: m for m in json.load(open(os.path.join(OUT, 'mutants.json')))}
     rs = results()
+    for i, r2 in results('results2.lane').items():
+        if i in rs and rs[i]['outcome'] == 'survived':
+            rs[i] = dict(rs[i], checks=dict(rs[i].get('checks', {}), **r2.get('checks', {})),
+                         outcome={'concrete': 'concrete-elsewhere', 'broken-only': 'broken-elsewhere'}.get(r2['outcome'], 'survived-all'))
     byf = {}
     for i, r in rs.items():
         f = ms[i]['file'] if i in ms else '?'
@@ -198,7 +212,7 @@ def report():
             tot[k] = tot.get(k, 0) + v
         print('%-34s %s' % (f, row))
     print('TOTAL', tot, 'of', len(ms), 'generated')
-    surv = [i for i, r in rs.items() if r['outcome'] == 'survived']
+    surv = [i for i, r in rs.items() if r['outcome'] in ('survived', 'survived-all')]
     json.dump({'summary': tot, 'survivors': [dict(ms[i], checks=rs[i].get('checks')) for i in sorted(surv) if i in ms]},
               open(os.path.join(OUT, 'REPORT.json'), 'w'), indent=1)
 
@@ -211,5 +225,9 @@ if __name__ == '__main__':
         run(int(sys.argv[2]))
     elif cmd == 'lane':
         lane_main(int(sys.argv[2]), sys.argv[3:])
+    elif cmd == 'lane2':
+        lane_main(int(sys.argv[2]), sys.argv[3:], True)
+    elif cmd == 'stage2':
+        run(int(sys.argv[2]), True)
     elif cmd == 'report':
         report()
